@@ -21,3 +21,23 @@ Lemma gen_roundtrip : forall fl n fn c ctor v tag,
   tmem (fn, c, ctor) xml_pairs = true -> cls_of v = c -> wfb xml_meta n v = true ->
   exists x, enc_obj fl gen_xml_w n fn tag v = Ok x /\ xtag x = tag /\ dec_obj gen_xml_r xml_meta n ctor x = Ok v.
 Proof. intros fl n. exact (roundtrip xml_meta gen_xml_w gen_xml_r xml_pairs fl gen_compat n). Qed.
+
+Lemma gen_tops_in : forall t, In t xml_tops -> tmem (tl_fn t, tl_cls t, tl_ctor t) xml_pairs = true.
+Proof.
+  assert (H : forallb (fun t => tmem (tl_fn t, tl_cls t, tl_ctor t) xml_pairs) xml_tops = true) by (vm_compute; reflexivity).
+  intros t Hin. rewrite forallb_forall in H. apply H. exact Hin.
+Qed.
+
+Lemma gen_tops_nodup : nodup_s (map tl_list xml_tops) = true.
+Proof. vm_compute. reflexivity. Qed.
+
+Lemma gen_store_roundtrip : forall fl n objs seen,
+  (forall v, In v objs -> wfb xml_meta n v = true) ->
+  add_all [] (read_back xml_tops objs) = Ok seen ->
+  exists x, write_store fl gen_xml_w xml_tops n objs = Ok x /\
+            read_store gen_xml_r xml_meta xml_tops n x = Ok (read_back xml_tops objs).
+Proof.
+  intros fl n objs seen Hwf Hids.
+  exact (store_roundtrip xml_meta gen_xml_w gen_xml_r xml_pairs fl gen_compat xml_tops gen_tops_in gen_tops_nodup
+           n objs Hwf seen Hids).
+Qed.
